@@ -594,4 +594,4 @@ def run(ctx):
         start_failure_scenario(viol, stats, samples)
     return dict(evaluations=stats["events"], distinct_nontrivial=stats["runs"],
                 rule="MAKEFLAGS strings (all sequences of up to 3 tokens over the option spellings, digits, signs, commas, blanks; seeded longer ones; i32 boundary values) through the real parser and the model, and the value a real redo -jN exports against Makeflags.format; two directed scenarios for the borrowed-token path (followed job waits for a locked target, wakes up with no token free, cheats; then exits with the loan / releases it again) under an inherited jobserver; three directed lock-contention runs under an inherited jobserver (two concurrent top-level commands want the same target; the waiter has all its slots busy first, gives up its token, blocks on the lock; the other build fails / completes the target; k = 0..2 tokens in the pipe, redo / redo-ifchange, -k, with and without log): pipe contents afterwards, model replay, final model pipe and IOU count; two nested `redo -jM sub` runs (M = 1..2) inside `redo -jN` / an inherited jobserver of N-1 tokens (N = 4..5; fan and diamond sub-graphs of 5-6 recording scripts): overlap of the sub-build's work sections <= M (+1 with log), overall <= N, outer tokens conserved, every jobserver's trace replayed; seeded random build graphs (3-9 targets; chains, fans, diamonds, layers; failing, checksummed, always targets) built at -j1..4 with own or inherited (MAKEFLAGS) jobserver, with and without log capture, first build and rebuild; every primitive token event of every process is replayed by the Lean acceptor; distinct = runs",
-                samples=samples, traces_validated_against_impl=stats["groups"], disagreements_checked=stats["events"], distribution=stats, known_hit=known_hit)
+                samples=samples, traces_validated_against_impl=stats["groups"], disagreements_checked=stats["events"], distribution=dict(stats, per_process_counter_model_TokLoop=dict(sched.TOKLOOP_STATS)), known_hit=known_hit)
